@@ -29,6 +29,13 @@ package json
 //@ ensures forall(i, 0, len(es), (typeis(result[i], RangeView) || typeis(result[i], OpenRangeView) || typeis(result[i], EntryView)) && vtotal(result[i]) == klog.edur(es[i]))
 //@ ensures forall(i, 0, len(es), typeis(result[i], RangeView) == typeis(es[i].value, *klog.timeRange) && typeis(result[i], OpenRangeView) == typeis(es[i].value, *klog.openRange))
 //@ ensures forall(i, 0, len(es), implies(typeis(result[i], RangeView), result[i].(RangeView).EndMins - result[i].(RangeView).OpenRangeView.StartMins == vtotal(result[i])))
+// the `type` text and the minute values of start and end are those of the entry itself
+//@ ensures forall(i, 0, len(es), implies(typeis(result[i], RangeView), result[i].(RangeView).OpenRangeView.EntryView.Type == "range" && result[i].(RangeView).OpenRangeView.StartMins == klog.off(es[i].value.(*klog.timeRange).start) && result[i].(RangeView).EndMins == klog.off(es[i].value.(*klog.timeRange).end)))
+//@ ensures forall(i, 0, len(es), implies(typeis(result[i], OpenRangeView), result[i].(OpenRangeView).EntryView.Type == "open_range" && result[i].(OpenRangeView).StartMins == klog.off(es[i].value.(*klog.openRange).start)))
+//@ ensures forall(i, 0, len(es), implies(typeis(result[i], EntryView), result[i].(EntryView).Type == "duration"))
+//@ loop 1 invariant forall(i, 0, rangeindex+1, implies(typeis(views[i], RangeView), views[i].(RangeView).OpenRangeView.EntryView.Type == "range" && views[i].(RangeView).OpenRangeView.StartMins == klog.off(es[i].value.(*klog.timeRange).start) && views[i].(RangeView).EndMins == klog.off(es[i].value.(*klog.timeRange).end)))
+//@ loop 1 invariant forall(i, 0, rangeindex+1, implies(typeis(views[i], OpenRangeView), views[i].(OpenRangeView).EntryView.Type == "open_range" && views[i].(OpenRangeView).StartMins == klog.off(es[i].value.(*klog.openRange).start)))
+//@ loop 1 invariant forall(i, 0, rangeindex+1, implies(typeis(views[i], EntryView), views[i].(EntryView).Type == "duration"))
 //@ loop 1 invariant len(views) == rangeindex + 1
 //@ loop 1 invariant forall(i, 0, rangeindex+1, (typeis(views[i], RangeView) || typeis(views[i], OpenRangeView) || typeis(views[i], EntryView)))
 //@ loop 1 invariant forall(i, 0, rangeindex+1, implies(typeis(views[i], RangeView), vtotal(views[i]) == klog.edur(es[i])))
